@@ -8,6 +8,13 @@ HERE = os.path.dirname(os.path.dirname(os.path.abspath(__file__)))
 
 # id -> (technique, level text, level note, design ref)
 CHECKS = {
+    "C18": (
+        "exhaustive product collection type x audio directory form x recording path shapes (1-3 recordings, each reached through a different route) x load directory form, on the real io.save/io.load against lexical POSIX path arithmetic",
+        "78 208 (quick) / 1 399 104 (thorough) cases: all 8 collection types x audio directory {none, /data, /data/a b, /data/u-umlaut/CJK} as str or Path, with and without trailing slash x path shapes (inside, nested, unicode, spaces, deep, the directory itself, sibling-prefix trap /data2, elsewhere, relative) x load directory {none, A, /other, rel/dir}: "
+        "every stored path is the path relative to A (read from the JSON text), saving a recording outside A raises and writes nothing (fresh and pre-existing targets), every recording reachable from the loaded object (reflection walk) is B / stored path, no directory means pass-through; all of it per collection type.",
+        "No '..' components, POSIX paths. A recording whose path equals A itself may be rejected or stored as '.' (not defined by the statement).",
+        "DESIGN.md 4/C18",
+    ),
     "C15": (
         "exhaustive enumeration of clips on a 1/16 s lattice over real PCM-16 WAV files (rates, channels, time expansions), rate pairs x lengths for resample, window/hop (whole and fractional samples) for spectrograms, against frames read back with the standard-library wave module",
         "Real WAV files with integer ramps are written per worker; for the 8/10 Hz files every (start, end) on the 1/16 s lattice from 0 to 1.5 x file length (on/off sample boundaries, zero-length, reaching and starting past EOF), boundary sets for the other rates, x channels {1,2,3} x time expansion {1,2,10,1/2}: "
